@@ -143,6 +143,13 @@ pub fn generate(prop: &str, rng: &mut Rng, plan: &mut Plan, index: u64) {
         plan.knobs.step_cap = 400_000_000;
         plan.knobs.faults = Default::default();
     }
+    // "no limit" spelled as the largest duration there is (it does not fit the clock): only against
+    // a child that ends by itself soon
+    if !weeks_ok && life <= 60_000_000_000 && rng.chance(1, 10) {
+        if let Some(StatusOp::WaitTimeout(d)) = sp.ops.iter_mut().find(|o| matches!(o, StatusOp::WaitTimeout(_))) {
+            *d = u64::MAX;
+        }
+    }
     for op in sp.ops.iter_mut() {
         if let StatusOp::WaitTimeout(d) = op {
             if life > 60_000_000_000 {
@@ -177,6 +184,11 @@ pub fn generate(prop: &str, rng: &mut Rng, plan: &mut Plan, index: u64) {
     }
     sp.setpgid = rng.chance(1, 4);
     sp.other_thread = rng.chance(1, 6);
+    // a fatal signal from the parent takes a moment to take effect: the child is doomed but not a zombie yet
+    if rng.chance(1, 5) {
+        plan.knobs.faults.kill_lag_ns = *rng.pick(&[20_000u64, 2_000_000, 300_000_000]);
+        plan.knobs.batch = "faulty".into();
+    }
     // a signal that cannot be delivered for once (EPERM): the child is still the caller's to signal later
     if prop != "C11" && rng.chance(1, 8) {
         plan.knobs.faults.kill_fail = Some((1 + rng.below(2) as u32, libc::EPERM));
@@ -376,7 +388,7 @@ fn run_ops(plan: &Plan, sp: &StatusPlan, mut p: Popen) -> FamOut {
             }
             StatusOp::WaitTimeout(d) => {
                 let d = *d;
-                let r = lib("Popen::wait_timeout", || p.wait_timeout(Duration::from_nanos(d)));
+                let r = lib("Popen::wait_timeout", || p.wait_timeout(if d == u64::MAX { Duration::MAX } else { Duration::from_nanos(d) }));
                 let t_ret = now();
                 let evs = st.lib_events(b);
                 let (dstall, dlate) = (sim().stalled_ns - stall0, sim().late_ns - late0);
@@ -401,7 +413,7 @@ fn run_ops(plan: &Plan, sp: &StatusPlan, mut p: Popen) -> FamOut {
                             match res {
                                 None => {
                                     if t_ret < t_call.saturating_add(d) {
-                                        violate("wt_early", format!("wt_early/dur_class={}", dur_class(d)), format!("op#{}: wait_timeout({} ns) called at {} returned 'still running' at {}, {} ns early", i, d, t_call, t_ret, t_call + d - t_ret));
+                                        violate("wt_early", format!("wt_early/dur_class={}", dur_class(d)), format!("op#{}: wait_timeout({} ns) called at {} returned 'still running' at {}, {} ns early", i, d, t_call, t_ret, t_call.saturating_add(d) - t_ret));
                                     }
                                     let dl = t0.saturating_add(d);
                                     if t_ret > dl.saturating_add(10_000_000 + slack) {
@@ -514,6 +526,10 @@ fn run_ops(plan: &Plan, sp: &StatusPlan, mut p: Popen) -> FamOut {
                                 let tgt = kills.first().map(|k| format!("{:?}", k.target)).unwrap_or_default();
                                 violate("signal_after_observed", format!("signal_after_observed/by={}/kills={}/target={}", name, kills.len().min(2), tgt.split('(').next().unwrap_or("")), format!("{}() after the final status was known: {} kill call(s) {:?}, result {:?}", name, kills.len(), kills.iter().map(|k| (k.pid, k.sig)).collect::<Vec<_>>(), res));
                             }
+                        } else if !kills.is_empty() && st.child().map(|c| c.pid == pid && matches!(c.reaped_by, Some(Ent::Par(_))) && c.reaped_seq <= b).unwrap_or(false) {
+                            // no status was ever reported, but a query of this very Popen has reaped the
+                            // child: its termination has been observed by the library, the pid is free
+                            violate("signal_after_observed", format!("signal_after_observed/by={}/reaped_by_an_earlier_query", name), format!("{}(): an earlier query of this Popen reaped child {} (without reporting a status); {} kill call(s) {:?} were made afterwards", name, pid, kills.len(), kills.iter().map(|k| (k.pid, k.sig)).collect::<Vec<_>>()));
                         } else {
                             let ok = kills.len() == 1 && kills[0].pid == pid && kills[0].sig == want_sig;
                             if !ok {
@@ -570,6 +586,8 @@ fn dur_class(d: u64) -> &'static str {
         "s"
     } else if d < 25 * DAY {
         "hours"
+    } else if d == u64::MAX {
+        "unlimited"
     } else {
         "weeks"
     }
